@@ -140,6 +140,8 @@ def gen_hierarchy(rng):
             c['extra'] = True       # with defaults: Optional[...] = None
         if kids and rng.random() < 0.3:
             c['abc'] = True
+        elif kids and parent is None and rng.random() < 0.3:
+            c['abstractmethod'] = True      # implemented by descendants
         elif not kids and rng.random() < 0.08:
             c['registered'] = False
         if rng.random() < 0.12 and not c.get('abc'):
@@ -151,6 +153,18 @@ def gen_hierarchy(rng):
         return c
     for _ in range(rng.choice([1, 1, 2])):
         roots.append(make(None, 1))
+    # below a root with an abstract method, a class that has subclasses may
+    # leave it unimplemented: abstract without naming abc.ABC itself
+    for c in classes:
+        bs = c.get('bases', [])
+        if len(bs) == 1 and any(
+                d['name'] == bs[0] and (d.get('abstractmethod')
+                                        or d.get('keep_abstract'))
+                for d in classes) and any(
+                c['name'] in d.get('bases', []) for d in classes) \
+                and not c.get('abc') and not c.get('recognize') \
+                and rng.random() < 0.6:
+            c['keep_abstract'] = True
     # a class with two bases from the hierarchies
     if len(hier) >= 3 and rng.random() < 0.3:
         a, b = rng.sample(hier, 2)
@@ -460,7 +474,7 @@ def judge(ctx, spec, nspec, style, seeds):
     if len(ctx.samples) < 4 and ref.kind == 'accept' and kind == 'ok' and \
             V.has_instance(x):
         ctx.sample({'doc_type': spec['doc_type'], 'text': text[:200],
-                    'classes': [c['name'] + ('(abstract)' if c.get('abc')
+                    'classes': [c['name'] + ('(abstract)' if c.get('abc') or c.get('keep_abstract') or c.get('abstractmethod')
                                              else '') for c in
                                 spec['classes']],
                     'loaded': c02.short(V.vdigest(x), 200),
